@@ -1,3 +1,6 @@
+#[cfg(okane_verif)]
+use crate::verif::HashMap;
+#[cfg(not(okane_verif))]
 use std::collections::HashMap;
 
 use super::{
